@@ -963,6 +963,10 @@ where
         if it.clone().collect::<Vec<T>>() != all[lo..hi] {
             d.push(Divergence::new(format!("{name}-remaining-sequence-wrong"), format!("state {lo}..{hi}")));
         }
+        // consuming adaptors with their own specialisations
+        if it.clone().last() != all[lo..hi].last().copied() || it.clone().count() != rem || it.clone().rev().last() != all[lo..hi].first().copied() || it.clone().fold(0usize, |a, _| a + 1) != rem {
+            d.push(Divergence::new(format!("{name}-last-count-fold-wrong"), format!("state {lo}..{hi}: last {:?}, count {}", it.clone().last(), it.clone().count())));
+        }
         if it.clone().rev().collect::<Vec<T>>() != all[lo..hi].iter().rev().copied().collect::<Vec<T>>() {
             d.push(Divergence::new(format!("{name}-reverse-sequence-wrong"), format!("state {lo}..{hi}")));
         }
@@ -1033,6 +1037,9 @@ where
         if it.size_hint() != (rem, Some(rem)) {
             d.push(Divergence::new(format!("{name}-size_hint-wrong"), format!("{name} with {rem} remaining reports {:?}", it.size_hint())));
         }
+        if it.clone().last() != all[lo..].last().copied() || it.clone().count() != rem || it.clone().fold(0usize, |a, _| a + 1) != rem {
+            d.push(Divergence::new(format!("{name}-last-count-fold-wrong"), format!("state {lo}..: last {:?}, count {}", it.clone().last(), it.clone().count())));
+        }
         if it.clone() != it || it.clone().collect::<Vec<T>>() != all[lo..] {
             d.push(Divergence::new(format!("{name}-remaining-sequence-wrong"), format!("state {lo}..")));
         }
@@ -1094,7 +1101,7 @@ pub fn run_c19(args: &Args) -> i32 {
         json!({
             "evaluations": n,
             "distinct_nontrivial": 64 + 8 + 8 + 4096 + states,
-            "rule": "index conversions on all 256 bytes; all 64 squares / 8 files / 8 ranks for composition, neighbours, flips, text round trips; File/Rank/Piece/PromotionPiece/Pos parsers on every byte string of length 0-2 (all 256 byte values) and length 3 over a 34-symbol alphabet; ChessMove parser on all strings of length 0-5 (thorough: 0-6) over the alphabet a-h A-H 1-8 - ` @ i I 0 9 space 0x80 0xe1 (34^5 = 45 435 424 five-byte strings); Display->parse for all 4096 non-promotion moves; enumerating iterators explored to closure as state machines (ops next, next_back, nth(k), nth_back(k) for k <= len+1 and usize::MAX and values around 2^8, 2^16, 2^32, 2^48, 2^63, size_hint, clone) against slice semantics; move strings assembled from square tokens, separator runs (up to ten dashes) and tails; every byte position of all 3*4096 valid move texts replaced by each of the 256 byte values; every char position of the valid texts of each FromStr parser replaced by (and prefixed / suffixed with) every non-ASCII char below U+3000 and in U+FF00-FFFF (thorough: every Unicode scalar value), plus sign / zero / blank decorations. Non-trivial = distinct values with a text form + iterator states.",
+            "rule": "index conversions on all 256 bytes; all 64 squares / 8 files / 8 ranks for composition, neighbours, flips, text round trips; File/Rank/Piece/PromotionPiece/Pos parsers on every byte string of length 0-2 (all 256 byte values) and length 3 over a 34-symbol alphabet; ChessMove parser on all strings of length 0-5 (thorough: 0-6) over the alphabet a-h A-H 1-8 - ` @ i I 0 9 space 0x80 0xe1 (34^5 = 45 435 424 five-byte strings); Display->parse for all 4096 non-promotion moves; enumerating iterators explored to closure as state machines (ops next, next_back, last, count, fold, nth(k), nth_back(k) for k <= len+1 and usize::MAX and values around 2^8, 2^16, 2^32, 2^48, 2^63, size_hint, clone) against slice semantics; move strings assembled from square tokens, separator runs (up to ten dashes) and tails; every byte position of all 3*4096 valid move texts replaced by each of the 256 byte values; every char position of the valid texts of each FromStr parser replaced by (and prefixed / suffixed with) every non-ASCII char below U+3000 and in U+FF00-FFFF (thorough: every Unicode scalar value), plus sign / zero / blank decorations. Non-trivial = distinct values with a text form + iterator states.",
             "iterator_states": states,
             "exhaustive": true,
             "samples": [{"input": "e2-e4", "parsed": "e2e4"}, {"input_hex": "6532e134", "parsed": Value::Null}],
